@@ -24,7 +24,7 @@ def run(item, mode, base):
         props = claimed() if mode == "all" else [prop]
         res = {}
         for p in props:
-            rc, out = sh(f"timeout 600 /verif/bin/govc check {p} --repo {d} --verif {d}/.verif-out --extspec /verif/contracts/external", cwd="/verif")
+            rc, out = sh(f"timeout 600 {a.govc} check {p} --repo {d} --verif {d}/.verif-out --extspec {a.extspec}", cwd="/verif")
             viol = [l for l in out.splitlines() if l.startswith("VIOLATION")]
             if rc != 0:
                 res[p] = {"exit": rc, "obligations": [re.search(r"obligation=(\S+)", v).group(1) for v in viol if "obligation=" in v][:8],
@@ -34,6 +34,7 @@ def run(item, mode, base):
         shutil.rmtree(d, ignore_errors=True)
 ap = argparse.ArgumentParser(); ap.add_argument("--only", default=""); ap.add_argument("--jobs", type=int, default=3)
 ap.add_argument("--props", default="all"); ap.add_argument("--dir", default="/verif/refactorings")
+ap.add_argument("--govc", default="/verif/bin/govc"); ap.add_argument("--extspec", default="/verif/contracts/external")
 a = ap.parse_args()
 items = sorted(f"{os.path.basename(os.path.dirname(f))}/{os.path.basename(f)[:-5]}" for f in glob.glob(f"{a.dir}/C*/*.diff"))
 if a.only: items = [i for i in items if i in a.only.split(",")]
